@@ -45,7 +45,18 @@ def parent_init(tier, seed):
 
 def base_scenario(r, want=None):
     want = want or r.choice(('valid', 'valid', 'valid', 'fault', 'fault'))
-    tree = progs.gen_tree(r, max_depth=2)
+    tree = progs.gen_tree(r, max_depth=2, allow_bytes=r.random() < 0.3)
+    special = r.random()
+    if want == 'valid' and special < 0.1:
+        # programs with no label at all / no bytes at all / data only
+        body = r.choice(('', '\n', '# only a comment\n', 'KA = 5\n', '    addi t0, t0, 1\n', 'db 1\n', '    nop\n    nop\n', 'string x\n'))
+        tree = {'files': {'/w/proj/main.asm': body}, 'bins': {}, 'dirs': list(progs.LAYOUT_DIRS), 'main': '/w/proj/main.asm', 'inc_dirs': [],
+                'includes': [], 'symbols': {'labels': [], 'consts': [], 'bigs': [], 'dlabels': [], 'regconsts': []}}
+    elif want == 'valid' and special < 0.14:
+        # an image longer than 64 KiB (the HEX file needs extended address records whatever the offset)
+        tree['bins'] = dict(tree.get('bins') or {})
+        tree['bins'][posixpath.dirname(tree['main']) + '/big.bin'] = {'rand': [r.randrange(1 << 30), r.choice((65536, 65537, 70000))]}
+        tree['files'][tree['main']] = tree['files'][tree['main']].rstrip('\r\n') + '\nalign 4\ninclude_bytes big.bin\nalign 4\nafter_big:\n    nop\n'
     if r.random() < 0.5:
         progs.add_decoys(r, tree, heavy=False)
     planted = None
